@@ -523,8 +523,60 @@ def build(run):
         return proved("exec(finite)", vcs=n, sample=f"{len(combos)} degree tuples (every order): the created mixed argument bounds each block; both estimation routes >= the true degree")
     run.add("derivative-created-mixed-argument/degree-bounds-every-block", derivative_mixed_argument, kind="values")
 
+    # ---- a non-negative integer power is a polynomial of degree d*e however the exponent is written (2, 2.0, 2+0j, IntValue, FloatValue)
+    def integer_powers_spelled_as_floats():
+        n = 0
+        for d in (1, 2, 3, 4):
+            f_ = ufl.Coefficient(ufl.FunctionSpace(tri, elem(d)))
+            for e_ in (0, 1, 2, 3, 2.0, 3.0, 1.0, 0.0, 2 + 0j, C.IntValue(2), C.FloatValue(2.0), C.FloatValue(4.0)):
+                ev = int(complex(e_._value if isinstance(e_, C.ScalarValue) else e_).real)
+                est_ = estimate_total_polynomial_degree(f_ ** e_)
+                n += 1
+                if est_ < d * ev:
+                    return violated(f"f**({e_!r}) with f of degree {d} is the polynomial f**{ev} of degree {d * ev}; estimated degree {est_}",
+                                    replay={"degree": d, "exponent": repr(e_), "estimate": est_}, reproduced=True, backend="exec")
+        return proved("exec(finite)", vcs=n, sample=f"{n} (degree, exponent spelling) cases: integer powers written as int / float / complex literals are estimated at least d*e")
+    run.add("transfer/integer-powers-written-as-float-or-complex-literals", integer_powers_spelled_as_floats, kind="values")
+
     # ---- attach_estimated_degrees: what compute_form_data attaches to each integral is an estimate of THAT integrand, whatever
     # metadata the integral already carries (forms are re-processed after replace()/reconstruct(), so an annotation may be stale)
+    # every integral gets ITS OWN estimate and keeps ITS OWN metadata, whatever the order of the integrals (highest degree first / last / in the middle)
+    def attach_each_integral():
+        from ufl.algorithms import compute_form_data
+        from ufl.algorithms.compute_form_data import attach_estimated_degrees
+        n = 0
+        for d in (1, 2, 3):
+            f_ = ufl.Coefficient(ufl.FunctionSpace(tri, elem(d)))
+            v_ = ufl.TestFunction(ufl.FunctionSpace(tri, elem(1)))
+            dxm, dsm = ufl.Measure("dx", domain=tri), ufl.Measure("ds", domain=tri)
+            # (integrand, measure, true degree, metadata)
+            parts = [(f_ ** 3 * v_, dxm(1, metadata={"quadrature_rule": "a"}), 3 * d + 1, {"quadrature_rule": "a"}), (f_ * v_, dxm((2, 5)), d + 1, {}), (v_, dsm(3, metadata={"k": 7}), 1, {"k": 7}),
+                     (f_ * f_ * v_, dsm(4), 2 * d + 1, {})]
+            for perm in itertools.permutations(range(4)):
+                form = None
+                for k_ in perm:
+                    it_ = parts[k_][0] * parts[k_][1]
+                    form = it_ if form is None else form + it_
+                for route, out in (("attach_estimated_degrees", attach_estimated_degrees(form).integrals()),
+                                   ("compute_form_data", [i_ for idt in compute_form_data(form).integral_data for i_ in idt.integrals])):
+                    for itg in out:
+                        sid = itg.subdomain_id()
+                        sid = sid if not isinstance(sid, tuple) else sid[0]
+                        which = {1: 0, 2: 1, 5: 1, 3: 2, 4: 3}[sid]
+                        true_deg, md_ = parts[which][2], parts[which][3]
+                        got = itg.metadata().get("estimated_polynomial_degree")
+                        n += 1
+                        if got is None or got < true_deg:
+                            return violated(f"{route}: the integral over subdomain {itg.subdomain_id()} ({itg.integral_type()}) of a form with four integrals has true degree {true_deg} "
+                                            f"but carries estimated_polynomial_degree = {got}", replay={"route": route, "subdomain": str(itg.subdomain_id()), "true": true_deg, "got": got, "degree": d},
+                                            reproduced=True, backend="exec")
+                        extra = {k2: v2 for k2, v2 in itg.metadata().items() if k2 != "estimated_polynomial_degree"}
+                        if route == "attach_estimated_degrees" and extra != md_:
+                            return violated(f"{route}: the integral over subdomain {itg.subdomain_id()} has metadata {extra}, it was given {md_} (entries of another integral leaked in)",
+                                            replay={"route": route, "subdomain": str(itg.subdomain_id())}, reproduced=True, backend="exec")
+        return proved("exec(finite)", vcs=n, sample=f"{n} (degree, integral order, route, integral) cases: each integral has its own estimate >= its true degree and its own metadata")
+    run.add("attach_estimated_degrees/each-integral-its-own-estimate-and-metadata", attach_each_integral, kind="values")
+
     def attach():
         from ufl.algorithms.compute_form_data import attach_estimated_degrees
         n = 0
